@@ -249,6 +249,7 @@ func (dest *Destination) updateConn(addr string) {
 }
 
 func (dest *Destination) collectRedo(conn *Conn) {
+	verifPoint("collectredo-start")
 	bulkData := conn.getRedo()
 	dest.spool.Ingest(bulkData)
 	dest.tasks.Done()
@@ -305,6 +306,7 @@ func (dest *Destination) relay() {
 		if conn != nil {
 			if !conn.isAlive() {
 				dest.Online = false
+				verifPoint("relay-conn-dead")
 				if dest.Spool {
 					dest.tasks.Add(1)
 					go dest.collectRedo(conn)
